@@ -259,6 +259,13 @@ func c14InnerDER(k *c14Key, s *c14Spec) ([]byte, string, error) {
 	return b, "PRIVATE KEY", err
 }
 
+// c14LastEnc: the encrypter object of the last encrypted PKCS#8 store of the run (reset by the executor).
+var c14LastEnc struct {
+	enc  pkcs.PBESEncrypter
+	name string
+	spec c14Spec
+}
+
 // c14StoreBytes asks the library for the container bytes.
 func c14StoreBytes(k *c14Key, s *c14Spec, rd io.Reader, rcpt *sm2.PrivateKey) (out []byte, desc string, bare bool, err error) {
 	switch s.ck {
@@ -266,9 +273,17 @@ func c14StoreBytes(k *c14Key, s *c14Spec, rd io.Reader, rcpt *sm2.PrivateKey) (o
 		out, err = smx509.MarshalPKCS8PrivateKey(k.obj)
 		return out, "pkcs8", false, err
 	case c14P8Enc:
-		enc, name, err := c14Encrypter(s, rd)
-		if err != nil {
-			return nil, name, false, err
+		var enc pkcs.PBESEncrypter
+		var name string
+		if s.path&2 != 0 && c14LastEnc.enc != nil {
+			// the application keeps ONE encrypter object and protects the next key with it, under the next password
+			enc, name = c14LastEnc.enc, c14LastEnc.name+" (encrypter object reused)"
+			s.ek, s.cipher, s.kdf, s.salt, s.iter = c14LastEnc.spec.ek, c14LastEnc.spec.cipher, c14LastEnc.spec.kdf, c14LastEnc.spec.salt, c14LastEnc.spec.iter
+		} else {
+			if enc, name, err = c14Encrypter(s, rd); err != nil {
+				return nil, name, false, err
+			}
+			c14LastEnc.enc, c14LastEnc.name, c14LastEnc.spec = enc, name, *s
 		}
 		if s.path%2 == 0 {
 			out, err = pkcs8.MarshalPrivateKey(k.obj, s.pw, enc) // salt / IV from crypto/rand.Reader (seeded by the worker)
